@@ -20,8 +20,14 @@
                               Proofs/LexSpell.v: every spelling of every derivable token sequence compiles to the query derived, and nothing else does;
      C03_complete_spelled / C03_exact_spelled - the same for ALL queries, filters included, every number spelling (fraction, exponent) included
                               (Proofs/LexCompleteF.v): compile() accepts exactly the spellings of derivable token sequences, and returns the query derived;
-   What remains unproved: that EVERY string of the ABNF that is valid is a spelling in the sense of Proofs/LexSpell.v - a statement about two grammars
-   that no longer involves the model of the library (the converse inclusion is C04_sound).  The check renders every generated valid query in every
+     C03_abnf_lexical_rules - every alternative of every LEXICAL rule of the ABNF (blank space, member-name shorthand incl. its non-ASCII ranges, int,
+                              every number spelling, function names, both kinds of string literal with every escape form) is a token text the spelling
+                              relation ranges over and converts without error (Proofs/AbnfInvert.v: inversion of ABNF derivations);
+     C03_complete_abnf_no_filter - the headline itself, with no spelling relation in the statement, for strings without "?": every string the ABNF
+                              derives that contains no "?" compiles in every environment whose integer range contains the integers it mentions
+                              (Proofs/AbnfSpell.v: ABNF derivations -> token-grammar derivations + spellings, continuation-passing through the bracket structure);
+   What remains unproved: the same inversion for filter selectors (logical-expr and below: the link from ABNF derivations to spellings there; the lexical
+   rules they use are covered by C03_abnf_lexical_rules, the spellings by C03_complete_spelled, the converse inclusion by C04_sound).  The check renders every generated valid query in every
    lexical form and requires it to compile to the generating structure. *)
 From JP Require Import Base.Json Spec.Abnf Spec.Rfc9535Grammar Model.PyFloat.
 
@@ -146,3 +152,29 @@ From JP Require Import Proofs.TieLex Gen.LexConst Model.Lex.
 Theorem C03_lexer_tables_regenerated : lex_tables_agree.      (* same matcher results on every text; same escape set *)
 Proof. exact lex_tables_regenerated. Qed.
 Print Assumptions C03_lexer_tables_regenerated.
+
+(* ---- from the ABNF itself ----
+   Proofs/AbnfInvert.v inverts derivations of the transcribed grammar.  Lexical layer: whatever the ABNF derives for a lexical rule is a token text
+   of the shape the lexer's patterns and states accept (and the spelling relation ranges over), and the parser's conversions succeed on it. *)
+From JP Require Import Spec.StringLit Proofs.Reparse Proofs.LexNoCrash Proofs.AbnfDerive Proofs.AbnfInvert Proofs.AbnfSpell Model.PyFloat Model.Parse.
+Theorem C03_abnf_lexical_rules :
+  (forall b, D S_ b -> blanks b) /\
+  (forall s, D (R r_member_name_shorthand) s -> name_shape s) /\
+  (forall s, D (R r_int) s -> int_text_ok s (int_of_index s)) /\
+  (forall v, D (R r_number) v -> has_leading_zero v = false /\ (int_form v \/ float_form v) /\ exists x, py_float v = Some x) /\
+  (forall s, D (R r_function_name) s -> exists c cs, s = c :: cs /\ in_ranges c Spec.Printable.cls_fn_first = true /\ forallb (fun y => in_ranges y Spec.Printable.cls_fn_char) cs = true) /\
+  (forall s, D (R r_string_literal) s -> exists q body k, s = q :: body ++ [q] /\ qok q /\ spec_decode q body = Some k).
+Proof. exact (conj i_S (conj abnf_name (conj abnf_int (conj abnf_number (conj abnf_function_name abnf_string))))). Qed.
+Print Assumptions C03_abnf_lexical_rules.
+
+(* The headline for strings without "?" (no filter selector): the statement mentions only the ABNF, compile() and the integer range.  B bounds the
+   integers the string mentions; typing does not arise without filters. *)
+Theorem C03_complete_abnf_no_filter : forall s, rfc_query s -> ~ In 63%N s ->
+  exists q B, forall cfg, min_idx cfg <= - B -> B <= max_idx cfg -> m_compile cfg s = Ok q.
+Proof. intros s H Hn. destruct (abnf_no_filter_compiles s H Hn) as (q & B & _ & K). exists q, B. intros cfg H1 H2. apply K. split; assumption. Qed.
+Print Assumptions C03_complete_abnf_no_filter.
+
+(* not vacuous:  $ .a ['b' , 0] ..* [ 1 : :-1 ]  *)
+Example C03_abnf_no_filter_nonvacuous :
+  let s := [36;32;46;97;32;91;39;98;39;32;44;32;48;93;32;46;46;42;32;91;32;49;32;58;32;58;45;49;32;93]%N in rfc_query s /\ ~ In 63%N s.
+Proof. intros s. split; [apply in_rfc_sound; vm_compute; reflexivity | vm_compute; intuition discriminate]. Qed.
